@@ -2,7 +2,7 @@
 import ast
 
 from ..model import AnalysisError, dotted, unparse
-from ..util import U, enum_paths, walk_no_nested
+from ..util import FACTS, FACTS_I, U, enum_paths, walk_no_nested
 from ..paths import call_attr, call_name
 
 Z = 'scales/loadbalancer/zookeeper.py'
@@ -273,7 +273,7 @@ def r5(ctx, cls):
   stat = dc.params[2]
   seen = {}
   for ev, ex in enum_paths(ctx, dc):
-    fs = [(U(e.node).replace(' ', ''), e.info) for e in ev if e.kind == 'cond']
+    fs = FACTS(ev)
     calls = [call_attr(e.node) for e in ev if e.kind == 'call']
     writes = [(U(e.node.targets[0]), U(e.node.value)) for e in ev if e.kind == 'stmt' and isinstance(e.node, ast.Assign)]
     if ('%sisNone' % stat, True) in fs:
